@@ -23,6 +23,11 @@ func Parse(in string) (sections []*Section, err error) {
 	parser.AddErrorListener(errorListener)
 	parser.BuildParseTrees = true
 	tree := parser.Start()
+	if errorListener.ErrorBuilder.Len() != 0 {
+		// Syntax errors: do not walk a tree produced by error recovery, whose shape is
+		// not the grammar's (the walker's positional child access would panic on it).
+		return nil, fmt.Errorf("%v", errorListener.ErrorBuilder.String())
+	}
 
 	walker := NewWalker(parser)
 	antlr.ParseTreeWalkerDefault.Walk(walker, tree)
